@@ -277,17 +277,28 @@ func (k *c12Check) newWorker() (*c12Worker, error) {
 }
 
 // structural class of a (state, packet) for keys and outcome classes
-func c12StructClass(s *c12State, ref refpol.Verdict) string {
-	cl := ref.Reason.String()
+func c12StructClass(s *c12State, ref refpol.Verdict, appNote string) string {
 	if ref.Decision == refpol.Undecided {
 		if strings.Contains(ref.Note, "pass rule matched in profile") {
 			return "profile-pass-rule"
 		}
 		return "rule-meaning-unspecified"
 	}
-	for _, t := range s.Tiers {
-		if t.Default == "" {
-			return "tier-default-action-unset"
+	// app-policy failed the evaluation on a tier whose default action is unset
+	if strings.Contains(appNote, "bad action") {
+		for _, t := range s.Tiers {
+			if t.Default == "" {
+				return "tier-default-action-unset"
+			}
+		}
+	}
+	cl := ref.Reason.String()
+	// a pass rule somewhere in a profile that is NOT the rule deciding this packet (see above for that case)
+	for _, p := range s.Profiles {
+		for _, r := range p {
+			if r.A == "pass" || r.A == "next-tier" {
+				return "profile-with-pass-rule:" + cl
+			}
 		}
 	}
 	return cl
@@ -442,8 +453,8 @@ func (k *c12Check) runCase(w *c12Worker, cs *c12Case) bool {
 		nPkts++
 
 		class := cs.Class
-		sc := c12StructClass(&cs.State, ref)
-		if cs.Class == "structure" || sc == "profile-pass-rule" {
+		sc := c12StructClass(&cs.State, ref, v.AppNote)
+		if cs.Class == "structure" || sc == "profile-pass-rule" || strings.HasPrefix(sc, "profile-with-pass-rule") {
 			class = "structure:" + sc
 		}
 		all := v.all()
@@ -786,9 +797,10 @@ func (k *c12Check) levelC(emit func(*c12Case)) {
 	if thorough {
 		shapes = append(shapes, []int{2, 2})
 	}
-	profileMenus := [][]string{nil, {"a"}, {"d", "a"}}
+	// "pA" / "p": a pass rule inside a profile, after tiers that may have passed the packet on
+	profileMenus := [][]string{nil, {"a"}, {"d", "a"}, {"pA"}}
 	if thorough {
-		profileMenus = append(profileMenus, []string{"aD"}, []string{"-", "a"})
+		profileMenus = append(profileMenus, []string{"aD"}, []string{"-", "a"}, []string{"p", "a"})
 	}
 	defaults := []string{"Deny", "Pass"}
 	for _, shape := range shapes {
@@ -918,11 +930,11 @@ func TestVerif_C12(t *testing.T) {
 		if c.Thorough() {
 			ruleA += "x action allow/deny/pass/next-tier/log x 5 placements (tier ending in deny; tier ending in pass + allow-all profile; two-rule policy + second tier; profile + next profile; last profile + deny-all) x ~50 boundary packets (one dimension varied at a time), IPv4 and IPv6, ingress and egress; "
 			ruleB += "(i) <= 2 rules in total over {tcp-dport-80, src-ipset, all} x {allow,deny,pass}, tier default action Deny/Pass/unset, ingress (+ egress and IPv6 for <= 1 rule); (ii) <= 3 rules and <= 2 policies in total over {tcp-dport-80, all} x {allow,deny,pass}; x 5 packets realising every match combination; "
-			ruleC += "tier shapes {2},{1,1},{2,1},{1,2} with 10 kinds per slot (allow, deny, pass, empty, staged allow, staged deny+pass-all, pass+allow-all, deny+pass-all, log-all+allow, allow+deny-all) and {2,2} with the first 7, x tier default actions Deny/Pass x 5 profile menus; "
+			ruleC += "tier shapes {2},{1,1},{2,1},{1,2} with 10 kinds per slot (allow, deny, pass, empty, staged allow, staged deny+pass-all, pass+allow-all, deny+pass-all, log-all+allow, allow+deny-all) and {2,2} with the first 7, x tier default actions Deny/Pass x 7 profile menus (none, allow, deny+allow, pass+allow-all, allow+deny-all, empty+allow, pass then allow); "
 		} else {
 			ruleA += "x action allow/deny/pass (next-tier/log for two matchers) x 3 placements (tier ending in deny; tier ending in pass + allow-all profile; profile + next profile; all 5 placements for two matchers) x ~30 boundary packets, IPv4 (ingress; egress for the first placement) and, for the IP-version-sensitive families, IPv6 ingress; "
 			ruleB += "<= 2 rules and <= 2 policies in total over {tcp-dport-80, all} x {allow,deny,pass}, tier default action Deny/Pass (and unset for one-tier states), ingress (+ egress for <= 1 rule), x 5 packets; "
-			ruleC += "tier shapes {2},{1,1},{2,1},{1,2} with 6 kinds per slot (allow, deny, pass, empty, staged allow, staged deny+pass-all) x tier default actions Deny/Pass x 3 profile menus; "
+			ruleC += "tier shapes {2},{1,1},{2,1},{1,2} with 6 kinds per slot (allow, deny, pass, empty, staged allow, staged deny+pass-all) x tier default actions Deny/Pass x 4 profile menus (none, allow, deny+allow, pass+allow-all in one profile); "
 		}
 		c.Rule("states = endpoint policy states (IP sets + policies + profiles + workload endpoint as the calculation graph's proto messages) x direction x IP version, each built on the four real implementations; " +
 			ruleA + ruleB + ruleC +
